@@ -363,3 +363,7 @@ add("bb_reset_dfcc", ["C09", "C01"], ["tu/bb_reset_dfcc.c"], "h_bb_reset_dfcc", 
     assumptions=["vector operations replaced by capture contracts (own check: vec_step)"])
 add("bb_estimate_dfcc", ["C09"], ["tu/bb_reset_dfcc.c"], "h_bb_estimate_dfcc", mode="dfcc", enforce="block_builder_current_size_estimate/block_builder_current_size_estimate__spec",
     unwind=8, timeout=300, strength="U", functions=["block_builder_current_size_estimate"], assumptions=["entry bytes <= 2^50, restart points <= 2^40"])
+for op in ("get", "get_prefix", "get_range"):
+    add(f"fs_source_{op}_dfcc", ["C07"], ["tu/fileset_dfcc.c"], f"h_fileset_source_{op}_dfcc", mode="dfcc", enforce=f"fileset_source_{op}/fileset_source_{op}__spec",
+        replace=["mtbl_fileset_reload/mtbl_fileset_reload__spec", "my_calloc/my_calloc__cap", "mtbl_merger_source/mtbl_merger_source__cap", f"mtbl_source_{op}/mtbl_source_{op}__cap", "mtbl_iter_init/mtbl_iter_init__cap"],
+        unwind=24, timeout=900, slice=1, strength="U", functions=[f"fileset_source_{op}", "fileset_iter_init"], assumptions=FS_DFCC2_ASSUME)
